@@ -244,7 +244,17 @@ class MetadorNode(wrapt.ObjectProxy):
             # allow child nodes of local-only nodes to go up to the marked parent
             # (or it is None, if this is the local root)
             if lp := self._self_local_parent:
-                return lp
+                if all(lp.acl[flag] for flag, val in self.acl.items() if val):
+                    return lp
+                # this node was restricted further after it was obtained from the parent
+                # -> the parent must not be less restricted than this node
+                flags = {f.name: True for f in iter(NodeAcl) if lp.acl[f] or self.acl[f]}
+                return MetadorGroup(
+                    self._self_container,
+                    lp.__wrapped__,
+                    local_parent=lp._self_local_parent,
+                    **flags,
+                )
             else:
                 # raise exception (illegal non-local access)
                 self._guard_acl(NodeAcl.local_only, "parent")
